@@ -237,6 +237,10 @@ func c14IcDrivers() []*icCfg {
 		{Name: "I10L-loading-promote-vs-set-then-get", O: o, Hy: hy(1, 1, false), Loading: true, LoadCost: 1, LoadTTL: long, Pre: demoted, Scripts: [][]icOp{{L(1)}, {T(1), L(1)}}, Post: []icOp{W, Z, L(1)}},
 		// loading store: promotion racing a Delete / a Set-then-eviction, secondary calls slow (scheduling points inside them)
 		{Name: "I4L-loading-promote-vs-delete", O: o, Hy: hy(1, 1, true), Loading: true, LoadCost: 1, LoadTTL: long, Pre: demoted, Scripts: [][]icOp{{L(1)}, {D(1)}}, Post: []icOp{W, Z, L(1)}},
+		// a lookup that starts after a Delete of the key has returned, while an earlier promotion of that key is finishing
+		// (its singleflight call still registered): it must not be handed the deleted value
+		{Name: "I11-promote-vs-delete-then-get", O: o, Hy: hy(1, 1, false), Pre: demoted, Scripts: [][]icOp{{H(1)}, {D(1), H(1)}}, Post: []icOp{W, Z, H(1)}},
+		{Name: "I11L-loading-promote-vs-delete-then-get", O: o, Hy: hy(1, 1, false), Loading: true, LoadCost: 1, LoadTTL: long, Pre: demoted, Scripts: [][]icOp{{L(1)}, {D(1), L(1)}}, Post: []icOp{W, Z, L(1)}},
 		{Name: "I7-coin", O: o, Hy: hy(1, 0.5, false), Pre: demoted, Scripts: [][]icOp{{T(1), T(2)}, {H(1)}}, Post: []icOp{W, Z, H(1)}},
 	}
 }
